@@ -115,6 +115,10 @@ def run_edit(cfg, keys):
     w = cfg["w"]
     caplen = len(cfg["caption"])
     sigs = []
+    if cfg.get("validator"):
+        # an application handler connected earlier that answers with a value (a validator): the signals must still reach every handler
+        urwid.connect_signal(e, "change", lambda wd, new: True)
+        urwid.connect_signal(e, "postchange", lambda wd, old: 1)
     urwid.connect_signal(e, "change", lambda wd, new: sigs.append(("change", new, wd.edit_text)))
     urwid.connect_signal(e, "postchange", lambda wd, old: sigs.append(("postchange", old, wd.edit_text)))
 
@@ -252,7 +256,7 @@ def run(chk):
 
     for wrap in ("space", "any"):
         for (cap, txt, w) in (("", "ab cd", 3), ("? ", "abc\nd", 4), ("c\n", "ab", 2)):
-            cfg = {"caption": cap, "text": txt, "w": w, "wrap": wrap, "align": "left", "multiline": True, "allow_tab": False}
+            cfg = {"caption": cap, "text": txt, "w": w, "wrap": wrap, "align": "left", "multiline": True, "allow_tab": False, "validator": w == 4}
             for seq in itertools.product(base_keys, repeat=depth):
                 traces.append(run_edit(cfg, list(seq)))
     # narrow widths with double-width characters: rows that end early because the next character does not fit, a cursor behind a
@@ -279,7 +283,8 @@ def run(chk):
                "text": "".join(rng.choice(chars + "\n") for _ in range(rng.randint(0, 8))),
                "w": rng.randint(1 if not wide else 2, 8), "wrap": wrap, "align": rng.choice(["left", "center", "right"]),
                "multiline": rng.random() < 0.7, "allow_tab": rng.random() < 0.3, "bytes": is_bytes, "enc": enc,
-               "mask": "*" if (not is_bytes and rng.random() < 0.15) else None}     # hidden text: one mask character per character
+               "mask": "*" if (not is_bytes and rng.random() < 0.15) else None,     # hidden text: one mask character per character
+               "validator": rng.random() < 0.3}
         if not cfg["multiline"]:
             cfg["text"] = cfg["text"].replace("\n", " ")
         traces.append(run_edit(cfg, random_keys(rng, rng.randint(2, 10), cfg["w"], chars + ("é" if is_bytes else ""))))
